@@ -91,7 +91,18 @@ func c02winner(c *an.Ctx) {
 			if !isSuccessReturn(r) {
 				continue
 			}
-			same := len(msgV) == 1 && an.SameValue(an.Resolve(r.Results[0]), msgV[0])
+			// judged per path: a single `return msg, err` behind a merge returns (nil, err) on the refusal arms
+			r := r
+			q := &an.PathQ{Fn: pop, StartEntry: true, AllAlias: true, AllConsts: true,
+				Sink: func(in ssa.Instruction, ps *an.PathState) bool {
+					if in != ssa.Instruction(r) || !sinkSuccessReturn(in, ps) {
+						return false
+					}
+					got := an.Resolve(ps.Selected(an.Resolve(r.Results[0])))
+					return !(len(msgV) == 1 && an.SameValue(got, msgV[0]))
+				}}
+			_, wrong := q.Find()
+			same := !wrong
 			c.Check(same, pop, "returns the removed message", r.Pos(), "", "pop returns something other than the message it removed")
 		}
 	}
